@@ -383,6 +383,14 @@ PLAIN_SHAPES = [s.replace("C1", _C1).replace("C2", _C2) for s in [
     "enum S<T> { A(H<T, 1>), B }", "enum S<'a, T: 'a, const N: usize> { A(H<&'a T, N>) }", "enum S<T, U> { A(H<T, 1>), B { b: H<U, 2> } }",
     "struct S<T>(H<T, 1>, H<T, 2>);", "struct S<T, U> { a: H<T, 1>, b: H<U, 2> }",
 ]]
+# field types of every syntactic kind, for the derives that ask nothing of a field's type (conversions, constructors, accessors)
+EXOTIC_TYPES = ["fn(u8) -> u8", "*const u8", "[u8; 4]", "(u8, i8)", "&'static str", "Box<dyn Fn(u8) -> u8 + Send + 'static>", "&'static (dyn ::core::any::Any + Send)",
+                "Option<&'static u8>", "::core::marker::PhantomData<u8>", "&'static [u8]", "for<'x> fn(&'x u8) -> &'x u8", "Box<dyn for<'x> Fn(&'x u8) -> &'x u8>",
+                "<u8 as Tr>::A", "Vec<Vec<u8>>", "Option<Option<Box<[u8]>>>", "(u8,)", "[[u8; 2]; 2]", "*mut [u8]", "unsafe extern \"C\" fn(u8)", "::std::string::String"]
+AGNOSTIC = ["Constructor", "From", "Into", "IsVariant", "Unwrap", "TryUnwrap", "TryInto", "TryFrom"]
+EXOTIC_SHAPES = (["struct S(%s);" % t for t in EXOTIC_TYPES] + ["struct S { a: %s, b: u8 }" % t for t in EXOTIC_TYPES] +
+                 ["enum S { A(%s), B { x: %s }, Cc }" % (t, EXOTIC_TYPES[(i + 1) % len(EXOTIC_TYPES)]) for i, t in enumerate(EXOTIC_TYPES)] +
+                 ["struct S<T>(%s, T);" % t for t in EXOTIC_TYPES[:8]] + ["struct S<'a, T: ?Sized>(&'a T, %s);" % t for t in EXOTIC_TYPES[8:14]])
 PREREQ = {"Error": "#[derive(Debug, derive_more::Display)] ", "Sum": "#[derive(derive_more::Add)] ", "Product": "#[derive(derive_more::Mul)] #[mul(forward)] ",
           "DerefMut": "#[derive(derive_more::Deref)] ", "IndexMut": "#[derive(derive_more::Index)] "}
 PREREQ_REQ = {"Error": ("Display", ""), "Sum": ("Add", ""), "Product": ("Mul", "#[mul(forward)] "), "DerefMut": ("Deref", ""), "IndexMut": ("Index", "")}
@@ -462,6 +470,13 @@ def part_accepted_compiles(chk, thorough):
     derives = sorted(table())
     pairs = [(d, it) for d in derives for it in EMPTY_SHAPES + PLAIN_SHAPES]
     pairs += [(d, "%s %s" % (a, it)) for d in derives for a in container_attrs(d) for it in EMPTY_SHAPES + PLAIN_SHAPES if "_variant" not in a or "enum " in it]
+    # the type-agnostic derives on field types of every syntactic kind (with their reference-kind attributes where they have them)
+    for d in AGNOSTIC:
+        for it in EXOTIC_SHAPES:
+            pairs.append((d, ("#[try_from(repr)] " if d == "TryFrom" else "") + it))
+            for a in container_attrs(d):
+                if d != "TryFrom" and "forward" not in a:      # (`forward` asks `FieldTy: From<T>` of the type: not type-agnostic)
+                    pairs.append((d, "%s %s" % (a, it)))
     res = svc([{"derive": d, "item": it} for d, it in pairs])
     # helper attributes on the first / the last / every variant or field of every shape (placed by the engine, which also returns the text)
     dreqs = []
@@ -511,7 +526,7 @@ def part_accepted_compiles(chk, thorough):
         msg = re.sub(r"g\d+::", "", r.diags[0]["message"]) if r.diags else "?"
         chk.violation("rustc: derive(%s) accepts a degenerate shape but the expansion %s: %s" % (c.meta["derive"], "does not compile" if r.compile == "error" else "warns", re.sub(r"`[^`]*`", "`..`", msg)[:80]),
                       c.meta["src"], "; ".join(re.sub(r"g\d+::", "", d["message"]) for d in r.diags[:4]) + "\n" + (r.diags[0]["rendered"][:900] if r.diags else ""))
-    chk.part("degenerate_shapes", shapes=EMPTY_SHAPES, plain_shapes=PLAIN_SHAPES, derives=len(derives), pairs=len(pairs), accepted_and_compiled=len(cases),
+    chk.part("degenerate_shapes", shapes=EMPTY_SHAPES, plain_shapes=PLAIN_SHAPES, exotic_field_types=EXOTIC_TYPES, type_agnostic_derives=AGNOSTIC, derives=len(derives), pairs=len(pairs), accepted_and_compiled=len(cases),
              oracle="accepted in-process => compiles under #![deny(warnings)]; a diagnostic is the other allowed outcome (totality itself is C18)")
 
 
